@@ -101,14 +101,16 @@ out:
 static void mode_ms(void){
   vc_rng r; vc_case_rng(&r,23); int Fs=VC_PICK(&r,vk_rates), app=VC_PICK(&r,vk_apps); static const int fams[4]={0,1,255,3}; int fam=VC_PICK(&r,fams); int ch;
   if(fam==0) ch=vc_range(&r,1,2); else if(fam==1) ch=vc_range(&r,1,8); else if(fam==255) ch=vc_range(&r,1,6); else { int o=vc_range(&r,1,2); ch=(o+1)*(o+1)+(vc_chance(&r,1,3)?2:0); }
-  int streams=0,coupled=0; unsigned char map[255]; void *EA,*EB; int esz;
+  int streams=0,coupled=0; unsigned char map[256]; void *EA,*EB; int esz;
   if(fam==3){ esz=opus_projection_ambisonics_encoder_get_size(ch,3); if(esz<=0){ vc_viol("ms:size","projection size %d",esz); return; } EA=poisoned(esz,0,&r); EB=poisoned(esz,VC_PICK(&r,pats)?0xA5:-1,&r);
     if(opus_projection_ambisonics_encoder_init((OpusProjectionEncoder*)EA,Fs,ch,3,&streams,&coupled,app)||opus_projection_ambisonics_encoder_init((OpusProjectionEncoder*)EB,Fs,ch,3,&streams,&coupled,app)){ vc_viol("ms:init","projection init failed"); return; } }
   else { esz=opus_multistream_surround_encoder_get_size(ch,fam); if(esz<=0){ vc_viol("ms:size","surround size %d",esz); return; } EA=poisoned(esz,0,&r); EB=poisoned(esz,VC_PICK(&r,pats)?0xA5:-1,&r);
     if(opus_multistream_surround_encoder_init((OpusMSEncoder*)EA,Fs,ch,fam,&streams,&coupled,map,app)||opus_multistream_surround_encoder_init((OpusMSEncoder*)EB,Fs,ch,fam,&streams,&coupled,map,app)){ vc_viol("ms:init","surround init failed"); return; } }
   /* decoders: zero vs poisoned memory */
-  OpusMSDecoder *DA=NULL,*DB=NULL; if(fam!=3){ int dsz=opus_multistream_decoder_get_size(streams,coupled); DA=(OpusMSDecoder*)poisoned(dsz,0,&r); DB=(OpusMSDecoder*)poisoned(dsz,-1,&r); if(opus_multistream_decoder_init(DA,Fs,ch,streams,coupled,map)||opus_multistream_decoder_init(DB,Fs,ch,streams,coupled,map)){ vc_viol("ms:init","ms decoder init failed"); return; } }
-  vc_siggen g; vs_init(&g,vc_below(&r,VS_NFINITE),Fs,ch,0.5f,vc_next(&r)); float *in=(float*)malloc(sizeof(float)*5760*ch), *oa=(float*)malloc(sizeof(float)*5760*ch), *ob=(float*)malloc(sizeof(float)*5760*ch); static unsigned char pa[8000], pb[8000];
+  /* the decoder twins get one more output channel than the encoder, mapped to 255 (muted), in half of the cases: what they write there must not depend on what the buffer held */
+  int dch=ch; if(fam!=3&&ch<255&&vc_chance(&r,1,2)){ map[ch]=255; dch=ch+1; }
+  OpusMSDecoder *DA=NULL,*DB=NULL; if(fam!=3){ int dsz=opus_multistream_decoder_get_size(streams,coupled); DA=(OpusMSDecoder*)poisoned(dsz,0,&r); DB=(OpusMSDecoder*)poisoned(dsz,-1,&r); if(opus_multistream_decoder_init(DA,Fs,dch,streams,coupled,map)||opus_multistream_decoder_init(DB,Fs,dch,streams,coupled,map)){ vc_viol("ms:init","ms decoder init failed"); return; } }
+  vc_siggen g; vs_init(&g,vc_below(&r,VS_NFINITE),Fs,ch,0.5f,vc_next(&r)); float *in=(float*)malloc(sizeof(float)*5760*ch), *oa=(float*)malloc(sizeof(float)*5760*(ch+1)), *ob=(float*)malloc(sizeof(float)*5760*(ch+1)); static unsigned char pa[8000], pb[8000];
   int n=vc_range(&r,6,24), kc=vc_below(&r,n-2), kr=kc+1+(int)vc_below(&r,n-kc-1); int fidx=vc_range(&r,0,6); int stage=0; void *X=EA; int br=OPUS_AUTO,vbr=1,cx=9; int nset=0; struct { int br,vbr,cx; } sets[40];
   for(int k=0;k<n;k++){
     if(vc_chance(&r,1,3)&&nset<40){ br=vc_chance(&r,1,6)?OPUS_AUTO:vc_range(&r,4000,64000)*ch; vbr=vc_below(&r,2); cx=vc_below(&r,11); sets[nset].br=br; sets[nset].vbr=vbr; sets[nset].cx=cx; nset++;
@@ -119,14 +121,14 @@ static void mode_ms(void){
       for(int i=0;i<nset;i++){ if(fam==3){ opus_projection_encoder_ctl((OpusProjectionEncoder*)F,OPUS_SET_BITRATE(sets[i].br)); opus_projection_encoder_ctl((OpusProjectionEncoder*)F,OPUS_SET_VBR(sets[i].vbr)); opus_projection_encoder_ctl((OpusProjectionEncoder*)F,OPUS_SET_COMPLEXITY(sets[i].cx)); } else { opus_multistream_encoder_ctl((OpusMSEncoder*)F,OPUS_SET_BITRATE(sets[i].br)); opus_multistream_encoder_ctl((OpusMSEncoder*)F,OPUS_SET_VBR(sets[i].vbr)); opus_multistream_encoder_ctl((OpusMSEncoder*)F,OPUS_SET_COMPLEXITY(sets[i].cx)); } }
       if(fam==3) opus_projection_encoder_ctl((OpusProjectionEncoder*)X,OPUS_RESET_STATE); else opus_multistream_encoder_ctl((OpusMSEncoder*)X,OPUS_RESET_STATE);
       if(getenv("C12_DEBUG")){ const unsigned char *a=(const unsigned char*)X,*b=(const unsigned char*)F; int st=-1; fprintf(stderr,"reset at frame %d, object size %d; differing byte ranges (reset object vs new object):",k,esz); for(int q=0;q<=esz;q++){ int df=q<esz&&a[q]!=b[q]; if(df&&st<0) st=q; if(!df&&st>=0){ fprintf(stderr," [%d,%d)",st,q); st=-1; } } fprintf(stderr,"\n"); if(getenv("C12_PATCH")){ int lo=0,hi=-1,idx=0; sscanf(getenv("C12_PATCH"),"%d-%d",&lo,&hi); unsigned char *fb=(unsigned char*)F; st=-1; for(int q=0;q<=esz;q++){ int df=q<esz&&a[q]!=fb[q]; if(df&&st<0) st=q; if(!df&&st>=0){ if(idx>=lo&&idx<=hi) memcpy(fb+st,a+st,q-st); idx++; st=-1; } } } }
-      free(EB); EB=F; stage=2; if(DA){ opus_multistream_decoder_ctl(DA,OPUS_RESET_STATE); int dsz=opus_multistream_decoder_get_size(streams,coupled); free(DB); DB=(OpusMSDecoder*)poisoned(dsz,-1,&r); opus_multistream_decoder_init(DB,Fs,ch,streams,coupled,map); } }
+      free(EB); EB=F; stage=2; if(DA){ opus_multistream_decoder_ctl(DA,OPUS_RESET_STATE); int dsz=opus_multistream_decoder_get_size(streams,coupled); free(DB); DB=(OpusMSDecoder*)poisoned(dsz,-1,&r); opus_multistream_decoder_init(DB,Fs,dch,streams,coupled,map); } }
     if(vc_chance(&r,1,5)) fidx=vc_range(&r,0,6); int fs=vk_frame_samples(Fs,fidx); vs_fill(&g,in,fs);
     int la= fam==3?opus_projection_encode_float((OpusProjectionEncoder*)X,in,fs,pa,8000):opus_multistream_encode_float((OpusMSEncoder*)X,in,fs,pa,8000); paint_stack(0x40+k);
     int lb= fam==3?opus_projection_encode_float((OpusProjectionEncoder*)EB,in,fs,pb,8000):opus_multistream_encode_float((OpusMSEncoder*)EB,in,fs,pb,8000); vc_count("ms_enc_pairs",1);
     if(getenv("C12_DEBUG")&&esz>135724) fprintf(stderr,"frame %d stage %d fs %d: enc3 celt force_intra %d / %d disable_pf %d / %d, len %d/%d first differing byte %d\n",k,stage,fs,((int*)((char*)X+135720))[0],((int*)((char*)EB+135720))[0],((int*)((char*)X+135728))[0],((int*)((char*)EB+135728))[0],la,lb,({int q=0; while(q<la&&q<lb&&pa[q]==pb[q]) q++; q;}));
     if(la!=lb||la<=0||memcmp(pa,pb,la)){ vc_viol(stage==2?"ms:enc-reset-differs":stage==1?"ms:enc-clone-diverges":"ms:enc-memory-dependent","family %d ch %d frame %d (%s): len %d vs %d (Fs=%d fs=%d)",fam,ch,k,stage==2?"reset vs new":stage==1?"clone vs twin":"zero vs poisoned memory",la,lb,Fs,fs); break; }
-    if(DA){ int lost=vc_chance(&r,1,8); int ra=opus_multistream_decode_float(DA,lost?NULL:pa,lost?0:la,oa,fs,0); paint_stack(0x90+k); int rb=opus_multistream_decode_float(DB,lost?NULL:pa,lost?0:la,ob,fs,0); vc_count("ms_dec_pairs",1);
-      if(ra!=rb||ra!=fs||memcmp(oa,ob,sizeof(float)*fs*ch)){ vc_viol(stage==2?"ms:dec-reset-differs":"ms:dec-memory-dependent","family %d ch %d frame %d: multistream decoder twins differ (ret %d/%d)",fam,ch,k,ra,rb); break; } }
+    if(DA){ int lost=vc_chance(&r,1,8); memset(oa,0x11,sizeof(float)*fs*dch); memset(ob,0xC7,sizeof(float)*fs*dch);   /* different previous contents in the two output buffers */ int ra=opus_multistream_decode_float(DA,lost?NULL:pa,lost?0:la,oa,fs,0); paint_stack(0x90+k); int rb=opus_multistream_decode_float(DB,lost?NULL:pa,lost?0:la,ob,fs,0); vc_count("ms_dec_pairs",1);
+      if(ra!=rb||ra!=fs||memcmp(oa,ob,sizeof(float)*fs*dch)){ vc_viol(stage==2?"ms:dec-reset-differs":"ms:dec-memory-dependent","family %d ch %d (+%d muted) frame %d: multistream decoder twins differ (ret %d/%d)",fam,ch,dch-ch,k,ra,rb); break; } if(dch>ch) vc_count("ms_dec_pairs_with_muted_channel",1); }
     vc_sig3((uint64_t)fam|((uint64_t)ch<<8),(uint64_t)stage|((uint64_t)fidx<<2),(uint64_t)(Fs/8000));
   }
   free(in); free(oa); free(ob); free(X); free(EB); free(DA); free(DB);
